@@ -180,3 +180,150 @@ pub fn check(kind: &'static str, monitor: &str, rep: &mut Report) {
         }
     }
 }
+
+// ------------------------------------------------------------------------------------------------
+// Objects that change threads: built on one thread, used on a second, used again on a third, read on the caller's.
+// Every value type of the library and the virtual bus are `Send`; nothing about them may depend on where they were made.
+
+fn hop<T: Send + 'static, R: Send + 'static>(value: T, f: fn(T) -> R) -> Result<R, String> {
+    std::thread::spawn(move || f(value)).join().map_err(|_| "the thread panicked".to_string())
+}
+
+type PageStage = (Vec<Page<'static>>, String);
+
+fn page_build(_: ()) -> PageStage {
+    (vec![Page::new(flipdot::PageId(5), 90, 7), Page::new(flipdot::PageId(6), 3, 2056), Page::from_bytes(7, 7, vec![0x11u8; 16]).expect("16 bytes")], String::new())
+}
+
+fn page_write((mut pages, mut out): PageStage) -> PageStage {
+    for p in pages.iter_mut() {
+        let (w, h) = (p.width(), p.height());
+        p.set_pixel(0, 0, true);
+        p.set_pixel(w - 1, h - 1, true);
+        p.set_pixel(w / 2, h / 2, true);
+        out.push_str(&format!("{}|", fnv(p.as_bytes())));
+    }
+    let c = pages[0].clone();
+    pages.push(c);
+    (pages, out)
+}
+
+fn page_read((mut pages, mut out): PageStage) -> PageStage {
+    for p in pages.iter_mut() {
+        let (w, h) = (p.width(), p.height());
+        out.push_str(&format!("{}{}{}|", p.get_pixel(0, 0), p.get_pixel(w - 1, h - 1), p.get_pixel(1 % w, 1 % h)));
+        p.set_all_pixels(false);
+        p.set_pixel(w - 1, 0, true);
+        out.push_str(&format!("{}|{}|", fnv(p.as_bytes()), pages_eq(p)));
+    }
+    (pages, out)
+}
+
+fn pages_eq(p: &Page<'_>) -> bool {
+    Page::from_bytes(p.width(), p.height(), p.as_bytes().to_vec()).map(|q| q == *p).unwrap_or(false)
+}
+
+type BusStage = (VirtualSignBus<'static>, String);
+
+fn bus_drive(bus: &mut VirtualSignBus<'static>, msgs: &[refs::RefMsg], out: &mut String) {
+    use flipdot::SignBus;
+    for m in msgs {
+        let r = bus.process_message(refs::from_ref_either(m)).map(|r| r.map(|x| refs::to_ref(&x).show())).map_err(|e| e.to_string());
+        out.push_str(&format!("{:?}|", r));
+    }
+}
+
+fn bus_build(_: ()) -> BusStage {
+    let mut bus = VirtualSignBus::new(vec![VirtualSign::new(Address(3), PageFlipStyle::Manual), VirtualSign::new(Address(6), PageFlipStyle::Automatic)]);
+    let mut out = String::new();
+    bus_drive(&mut bus, &vsx::configure_msgs(3, &vsx::type_block(5))[..3], &mut out);
+    (bus, out)
+}
+
+fn bus_middle((mut bus, mut out): BusStage) -> BusStage {
+    let mut msgs = vsx::configure_msgs(3, &vsx::type_block(5))[3..].to_vec();
+    msgs.extend(vsx::configure_msgs(6, &vsx::TINY1));
+    msgs.extend([refs::RefMsg::Request(6, 1), refs::RefMsg::Data { offset: 0, data: vsx::page_chunk(1, 0x55) }]);
+    bus_drive(&mut bus, &msgs, &mut out);
+    (bus, out)
+}
+
+fn bus_end((mut bus, mut out): BusStage) -> BusStage {
+    bus_drive(&mut bus, &[refs::RefMsg::Count(1), refs::RefMsg::Query(6), refs::RefMsg::Complete(6), refs::RefMsg::Query(6), refs::RefMsg::Goodbye(3), refs::RefMsg::Hello(3)], &mut out);
+    for i in 0..2 {
+        out.push_str(&vsx::observe(bus.sign(i)).show());
+        out.push('|');
+    }
+    (bus, out)
+}
+
+type CodecStage = (Vec<Frame<'static>>, Vec<Message<'static>>, Vec<u8>, String);
+
+fn codec_build(_: ()) -> CodecStage {
+    let frames: Vec<Frame<'static>> = [(3u16, 2u8, vec![0xFFu8]), (0xFFFF, 0xFF, vec![0xA5; 255]), (0, 0, vec![]), (0x0010, 0, (0..16).collect::<Vec<u8>>()), (3, 4, vec![0x0F])].into_iter().map(|(a, t, d)| Frame::new(Address(a), MsgType(t), Data::try_new(d).expect("<=255"))).collect();
+    (frames, vec![], vec![], String::new())
+}
+
+fn codec_encode((frames, mut msgs, mut sink, mut out): CodecStage) -> CodecStage {
+    for f in &frames {
+        out.push_str(&format!("{:?}|", f.write(&mut sink).is_ok()));
+        msgs.push(Message::from(f.clone()));
+    }
+    (frames, msgs, sink, out)
+}
+
+fn codec_decode((frames, msgs, sink, mut out): CodecStage) -> CodecStage {
+    let mut stream = &sink[..];
+    for (f, m) in frames.iter().zip(&msgs) {
+        out.push_str(&format!("{:?}|{}|{}|", Frame::read(&mut stream).map(|g| g == *f).map_err(|e| e.to_string()), Frame::from(m.clone()) == *f, refs::to_ref(m).show()));
+    }
+    out.push_str(&hex(&sink));
+    (frames, msgs, sink, out)
+}
+
+/// `kind`: codec, page, virtual_sign.
+pub fn check_migration(kind: &'static str, monitor: &str, rep: &mut Report) {
+    let run = |threads: bool| -> Result<String, String> {
+        macro_rules! stage {
+            ($v:expr, $f:expr) => {
+                if threads { hop($v, $f)? } else { $f($v) }
+            };
+        }
+        Ok(match kind {
+            "page" => {
+                let s = stage!((), page_build);
+                let s = stage!(s, page_write);
+                let s = stage!(s, page_read);
+                page_read(s).1
+            }
+            "virtual_sign" => {
+                let s = stage!((), bus_build);
+                let s = stage!(s, bus_middle);
+                let s = stage!(s, bus_end);
+                bus_end(s).1
+            }
+            _ => {
+                let s = stage!((), codec_build);
+                let s = stage!(s, codec_encode);
+                let s = stage!(s, codec_decode);
+                codec_decode(s).3
+            }
+        })
+    };
+    let here = match std::panic::catch_unwind(|| run(false)) {
+        Ok(Ok(s)) => s,
+        _ => {
+            rep.count("migration_probe_unavailable");
+            return;
+        }
+    };
+    rep.case(Some(fnv(kind.as_bytes()) ^ 0x316));
+    match run(true) {
+        Ok(s) if s == here => rep.count("migration_probes_ok"),
+        Ok(s) => {
+            let at = s.bytes().zip(here.bytes()).position(|(a, b)| a != b).unwrap_or(s.len().min(here.len()));
+            rep.violation(monitor, "different_result_when_objects_change_threads", &format!("migration|{}", kind), format!("{} objects built on one thread, used on a second and a third and read on a fourth behave differently than on one thread: ..{}.. instead of ..{}..", kind, &s[at.saturating_sub(20)..(at + 40).min(s.len())], &here[at.saturating_sub(20)..(at + 40).min(here.len())]), J::obj(vec![("workload", J::s("objects change threads")), ("kind", J::s(kind))]));
+        }
+        Err(e) => rep.violation(monitor, "fails_when_objects_change_threads", &format!("migration|{}", kind), format!("{} objects built on one thread and used on others: {}", kind, e), J::obj(vec![("workload", J::s("objects change threads")), ("kind", J::s(kind)), ("observed", J::s(e.clone()))])),
+    }
+}
